@@ -516,11 +516,18 @@ fn main_lex(args: &[String]) {
     let n: usize = args[2].parse().unwrap();
     let mut cases_out = std::io::BufWriter::new(std::fs::File::create(&args[3]).unwrap());
     let mut impl_out = std::io::BufWriter::new(std::fs::File::create(&args[4]).unwrap());
-    let symbols = Symbols::default();
+    // The symbol table of vhdl_lang only grows; a fresh one every few thousand cases keeps the run linear.
+    let mut symbols = Symbols::default();
+    let mut since_fresh = 0usize;
     let kws = keyword_names();
     let mut emit = |bytes: Vec<u8>| {
         writeln!(cases_out, "{}", dec(&bytes)).unwrap();
         cases_out.flush().unwrap();
+        since_fresh += 1;
+        if since_fresh >= 5000 {
+            symbols = Symbols::default();
+            since_fresh = 0;
+        }
         let r = run_lex_case(&symbols, &bytes);
         writeln!(impl_out, "{}", r).unwrap();
     };
